@@ -51,6 +51,43 @@ class SchedLock:
         self.release()
 
 
+class SchedRLock:
+    """Re-entrant variant (threading.RLock): the owner may acquire again."""
+
+    def __init__(self):
+        self.owner = None
+        self.count = 0
+
+    def acquire(self, blocking=True, timeout=-1):
+        s = S.CUR
+        t = s.current() if s is not None else None
+        if t is None:
+            self.owner, self.count = 'setup', self.count + 1
+            return True
+        if self.owner is t:
+            self.count += 1
+            return True
+        s.point(('rlock.acquire',))
+        while self.owner is not None and self.owner != 'setup':
+            if not blocking:
+                return False
+            s.point(('rlock.wait',), pred=lambda: self.owner is None or self.owner == 'setup')
+        self.owner, self.count = t, 1
+        return True
+
+    def release(self):
+        self.count -= 1
+        if self.count <= 0:
+            self.owner, self.count = None, 0
+
+    def __enter__(self):
+        self.acquire()
+        return self
+
+    def __exit__(self, *a):
+        self.release()
+
+
 class SchedFuture(Future):
     """Real Future; result()/exception() block through the scheduler. Timeouts never fire (assumption)."""
 
@@ -191,6 +228,7 @@ class ThreadingShim:
     """Stands in for the `threading` module inside deep.task / deep.thread_local."""
 
     Lock = SchedLock
+    RLock = SchedRLock
     Event = SchedEvent
     Thread = SchedThread
 
